@@ -1,11 +1,12 @@
 #!/bin/sh
 # Create (or refresh) a sandbox for mutant runs that does not disturb /repo or /verif:
-#   /tmp/mrun/repo  = detached worktree of /repo HEAD;  /tmp/mrun/verif = copy of /verif whose harness/extract link to it.
+#   $D/repo  = detached worktree of /repo HEAD;  $D/verif = copy of /verif whose harness/extract link to it.
 set -e
-rm -rf /tmp/mrun/verif
-git -C /repo worktree remove --force /tmp/mrun/repo 2>/dev/null || true
-mkdir -p /tmp/mrun
-git -C /repo worktree add -q --detach /tmp/mrun/repo HEAD
-rsync -a --exclude .git --exclude .run --exclude replays /verif/ /tmp/mrun/verif/
-sed -i 's|=> /repo|=> /tmp/mrun/repo|' /tmp/mrun/verif/harness/go.mod
-echo "sandbox ready: VERIF_REPO=/tmp/mrun/repo /tmp/mrun/verif/tools/run_mutants.py …"
+D=${1:-/tmp/mrun}
+rm -rf $D/verif
+git -C /repo worktree remove --force $D/repo 2>/dev/null || true
+mkdir -p $D
+git -C /repo worktree add -q --detach $D/repo HEAD
+rsync -a --exclude .git --exclude .run --exclude replays /verif/ $D/verif/
+sed -i "s|=> /repo|=> $D/repo|" $D/verif/harness/go.mod
+echo "sandbox ready: VERIF_REPO=$D/repo $D/verif/tools/run_mutants.py …"
